@@ -276,4 +276,14 @@ def evaluate(cfg):
         aT = np.abs(T)
         scT = np.einsum("ia,jb,kc,ld,abcd->ijkl", aT, aT, aT, aT, sc)
         o.cmp("electron_repulsion_integral transformed", gT, refT, TOL, scT, key="eri-transform")
+        # a 0/1-valued transformation whose rows SUM functions (not a selection matrix)
+        Tb = np.zeros((max(1, nb - 1), nb))
+        for r in range(Tb.shape[0]):
+            Tb[r, r] = 1.0
+            Tb[r, (r + 2) % nb] = 1.0
+        gB = electron_repulsion_integral(g, transform=Tb, notation="chemist")
+        o.call()
+        o.cmp("electron_repulsion_integral with a 0/1-valued transformation", gB,
+              np.einsum("ia,jb,kc,ld,abcd->ijkl", Tb, Tb, Tb, Tb, ref), TOL,
+              np.einsum("ia,jb,kc,ld,abcd->ijkl", Tb, Tb, Tb, Tb, sc), key="eri-transform-binary")
     return o
